@@ -60,13 +60,15 @@ def stepped_query(rng):
         return {"op": "term", "f": "body", "t": [c], "b4": rng.choice([4, 4, 8])}
     a, b = (t(1), t(2)) if rng.random() < 0.5 else (t(2), t(1))
     c = {"op": "term", "f": rng.choice(["body", "title"]), "t": rng.choice([[1], [1, 2]]), "b4": 4}
-    form = rng.choice(["and", "and", "and3", "andmaybe", "or", "andor", "dismax"])
+    form = rng.choice(["and", "and", "and3", "andmaybe", "andmaybe", "andmaybe-or", "or", "andor", "dismax"])
     if form == "and":
         return {"op": "and", "kids": [a, b], "b4": 4}
     if form == "and3":
         return {"op": "and", "kids": [a, b, c], "b4": 4}
     if form == "andmaybe":
         return {"op": "andmaybe", "a": a, "b": b}
+    if form == "andmaybe-or":
+        return {"op": "andmaybe", "a": {"op": "or", "kids": [a, c], "b4": 4}, "b": b}
     if form == "or":
         return {"op": "or", "kids": [a, b], "b4": 4}
     if form == "dismax":
@@ -101,7 +103,7 @@ def check(run):
     # between runs of documents - blocks of the two lists cover different document ranges and their
     # qualities change at different places (what skip_to_quality of a binary matcher has to follow)
     for mode, nw in (("exact", 6 if quick else 40), ("rank", 3 if quick else 20)):
-        trs, meta, cases = c11.collect(run, rng, nw, 12 if quick else 20, mode, thresholds, quality=True,
+        trs, meta, cases = c11.collect(run, rng, nw, 16 if quick else 24, mode, thresholds, quality=True,
                                        ndocs=(12, 30), nsteps=(6, 16), docgen=stepped_docs, qgen=stepped_query, plangen=stepped_plan, qbias=0.5,
                                        blocklimits=(1, 2, 3, 4))
         c11.judge_traces(run, "C12", trs, meta, "c12-stepped-" + mode)
